@@ -163,7 +163,27 @@ Inductive outcome :=
 | OCanceled       (* returns context.Canceled (live context); acceptable to the caller's predicate *)
 | ODeadline       (* returns context.DeadlineExceeded (live context); unacceptable *)
 | OErrFB          (* returns the value the fallback would return; unacceptable *)
-| OPanicSU.       (* panic(ErrServiceUnavailable) *)
+| OPanicSU        (* panic(ErrServiceUnavailable) *)
+(* The caller's predicate is a user callback with a behaviour of its own: a function of the
+   returned VALUE, nil included, that may look at side state of the request (rest/httpc:
+   err == nil && resp.StatusCode < 500).  With the default predicate (Do, DoWithFallback) these
+   three are plain returns of nil / of the unacceptable error. *)
+| OOkRej          (* returns nil; the caller's predicate says "unacceptable" (e.g. an HTTP 5xx behind a nil error) *)
+| OErrUAcc        (* returns the unacceptable error value; the caller's predicate accepts it this time *)
+| OPredPanic.     (* returns nil; the caller's predicate panics *)
+
+(* what the request hands back: nil? *)
+Definition returns_nil (o : outcome) : bool :=
+  match o with OOk | OOkRej | OPredPanic => true | _ => false end.
+
+(* the answer of the CALLER'S predicate on the value the request returned; None: it is not
+   asked (the request panicked) or it does not answer (it panics itself) *)
+Definition pred_answer (o : outcome) : option bool :=
+  match o with
+  | OOk | OErrA | OErrSUW | OCanceled | OErrUAcc => Some true
+  | OErrU | OErrSU | ODeadline | OErrFB | OOkRej => Some false
+  | OPanic | OPanicSU | OPredPanic => None
+  end.
 
 Record call := mkCall
   { k_entry : entry; k_ctx : ctxmode; k_out : outcome;
@@ -193,9 +213,9 @@ Definition counts_as_success (e : entry) (o : outcome) : bool :=
   match e with
   | EAllowAccept => true
   | EAllowReject => false
-  | EDo | EDoFb => match o with OOk => true | _ => false end                 (* defaultAcceptable *)
-  | EDoAcc | EDoFbAcc =>                                                     (* caller's predicate *)
-    match o with OOk | OErrA | OErrSUW | OCanceled => true | _ => false end
+  | EDo | EDoFb => match o with OOk | OOkRej | OPredPanic => true | _ => false end   (* defaultAcceptable: err == nil *)
+  | EDoAcc | EDoFbAcc =>                                 (* the caller's predicate, asked also about nil *)
+    match o with OOk | OErrA | OErrSUW | OCanceled | OErrUAcc => true | _ => false end
   end.
 
 (* what a call that was let through returns / raises *)
@@ -205,6 +225,8 @@ Definition result_of (e : entry) (o : outcome) : result :=
        | OOk => RNil | OErrU => RErrU | OErrA => RErrA | OPanic => RPanic
        | OErrSU => RUnavailable | OErrSUW => RErrSUW | OCanceled => RCtxDone
        | ODeadline => RDeadline | OErrFB => RFallback | OPanicSU => RPanicSU
+       | OOkRej => RNil | OErrUAcc => RErrU
+       | OPredPanic => match e with EDoAcc | EDoFbAcc => RPanic | _ => RNil end   (* the predicate's panic propagates *)
        end.
 
 Record obs := mkObs
